@@ -188,7 +188,8 @@ class Check:
         if rp.get('shim'):
             # schedule replay: <mutex>/<condition_variable>/<thread> come from /verif/shim (cooperative pthreads driven by the recorded schedule)
             srcs.append(os.path.join(VERIF, 'shim', 'vf_shim.cpp'))
-            shimflags = ['-I', os.path.join(VERIF, 'shim'), '-DVF_NO_MAIN=1'] + (['-DVF_RACY_WAIT_YIELD=1'] if rp.get('native_racy') else [])
+            # -D_GLIBCXX_MUTEX_H: the real <bits/std_mutex.h> (pulled in by <atomic>) must not define std::mutex next to the shim's
+            shimflags = ['-I', os.path.join(VERIF, 'shim'), '-DVF_NO_MAIN=1', '-D_GLIBCXX_MUTEX_H=1'] + (['-DVF_RACY_WAIT_YIELD=1'] if rp.get('native_racy') else [])
         extra_flags = list(extra_flags) + shimflags + ['-D%s' % d for d in rp.get('native_defines', [])]
         cfiles = [os.path.join(VERIF, s) for s in rp.get('native_extra', [])]
         objs = []
@@ -326,6 +327,7 @@ class Check:
             'solver_seconds_total': round(sum(q.result.solver_s for q in queries if q.result), 2),
             'cbmc_wall_seconds_total': round(sum(q.result.wall_s for q in queries if q.result), 2),
             'max_rss_mb': max([q.result.rss_mb for q in queries if q.result] or [0]),
+            'slowest_queries': [[q.name, round(q.result.wall_s, 1)] for q in sorted([q for q in queries if q.result], key=lambda q: -q.result.wall_s)[:6]],
             'functions_encoded': self.functions,
             'bounds': self.bounds,
             'stubs': stubs or [],
